@@ -18,6 +18,7 @@ type ProgGen struct {
 	NoDirs     bool
 	PlainText  bool // only letters in raw text (no HTML specials)
 	Disjoint   bool // lets and loop variables never share a name with a param
+	Rich       bool // also use $ij (injected data) and compile-time globals: the caller must supply Program.IJ / Program.Glob
 	tmplNames  []string
 	tmplParams map[string][]Param
 	prog       *Program
@@ -34,7 +35,7 @@ var loopPoolD = []string{"li", "lv"}
 var paramPool = []string{"a", "b", "x", "m", "c", "s", "i"}
 var letPool = []string{"a", "b", "x", "c", "s", "v"}
 var loopPool = []string{"i", "v", "a"}
-var textPool = []string{"t", "u", "w", "<b>", "&", "'q'", "z"}
+var textPool = []string{"t", "u", "w", "<b>", "&", "'q'", "z", "a b", " l", "r ", "{x}", "n\nn", "-"}
 var strLits = []string{"p", "<i>", "q&r", "", "k"}
 
 type gscope struct {
@@ -80,6 +81,14 @@ func (g *ProgGen) expr(sc *gscope, typ string, depth int) E {
 	}
 	switch typ {
 	case "int":
+		if g.prog != nil && g.pick(9) == 0 {
+			if g.prog.IJ["t"] == "map" && g.pick(2) == 0 {
+				return EBin("elvis", EVar("ij", AKey("n", g.pick(2) == 0)), EInt(7))
+			}
+			if _, ok := g.prog.Glob["G_INT"]; ok {
+				return EGlobal("G_INT")
+			}
+		}
 		if useVar {
 			if depth > 0 && g.pick(4) == 0 {
 				return EBin([]string{"add", "sub", "mul"}[g.pick(3)], ref(), EInt(g.pick(4)))
@@ -105,6 +114,14 @@ func (g *ProgGen) expr(sc *gscope, typ string, depth int) E {
 		}
 		return EInt(g.pick(5))
 	case "str":
+		if g.prog != nil && g.pick(9) == 0 {
+			if g.prog.IJ["t"] == "map" && g.pick(2) == 0 {
+				return EBin("elvis", EVar("ij", AKey("k", false)), EStr("noij"))
+			}
+			if _, ok := g.prog.Glob["app.G_STR"]; ok {
+				return EGlobal("app.G_STR")
+			}
+		}
 		if useVar {
 			if depth > 0 && g.pick(4) == 0 {
 				return EBin("add", ref(), EStr(strLits[g.pick(len(strLits))]))
@@ -119,11 +136,15 @@ func (g *ProgGen) expr(sc *gscope, typ string, depth int) E {
 		if useVar {
 			return ref()
 		}
-		switch g.pick(3) {
+		switch g.pick(5) {
 		case 0:
 			return EFn("range", EInt(g.pick(4)))
 		case 1:
 			return EList()
+		case 2:
+			return EFn("range", EInt(g.pick(3)), EInt(1+g.pick(4)))
+		case 3:
+			return EFn("range", EInt(g.pick(3)), EInt(2+g.pick(5)), EInt(1+g.pick(3)))
 		}
 		n := 1 + g.pick(3)
 		var items []E
@@ -391,6 +412,14 @@ func (g *ProgGen) command(sc *gscope, depth int, self int) Cmd {
 		if g.NoMsg {
 			return g.text()
 		}
+		switch g.pick(3) {
+		case 0:
+			return CMsg("d", []Cmd{Cmd{"k": "plural", "e": g.expr(sc, "int", 0),
+				"cases": []Cmd{{"n": g.pick(3), "body": []Cmd{CText("one")}}},
+				"def":   []Cmd{CText("many"), CPrint(g.expr(sc, "int", 0))}}})
+		case 1:
+			return CMsg("d", []Cmd{CText("M<b>"), CPrint(g.expr(sc, "str", 0)), CText("</b>N")})
+		}
 		return CMsg("d", []Cmd{CText("M"), CPrint(g.expr(sc, "str", 0)), CText("N")})
 	}
 	return g.text()
@@ -432,11 +461,16 @@ func (g *ProgGen) call(sc *gscope, depth int, self int) Cmd {
 		}
 	}
 	c := CCall(callee, mode, de, params...)
-	switch g.pick(4) {
+	switch g.pick(6) {
 	case 0:
 		c["spell"] = "fq"
 	case 1:
 		c["spell"] = "alias"
+	case 2:
+		c["spell"] = "attr"
+	}
+	if g.pick(4) == 0 {
+		c["paramattrs"] = true // {param key="k" value="expr"/} spelling where possible
 	}
 	return c
 }
@@ -484,6 +518,13 @@ func (g *ProgGen) Gen() *Program {
 	p := &Program{Bundle: map[string]*Tmpl{}, Glob: map[string]V{}, IJ: V{"t": "none"},
 		Plan: map[string]interface{}{"kind": "none"}, Aliases: map[string]bool{}}
 	g.prog = p
+	if g.Rich && g.pick(3) == 0 {
+		p.IJ = VMap(map[string]V{"k": VStr("inj<k>"), "n": VInt(5)})
+	}
+	if g.Rich && g.pick(3) == 0 {
+		p.Glob["G_INT"] = VInt(42)
+		p.Glob["app.G_STR"] = VStr("g&s")
+	}
 	nt := 2 + g.pick(3)
 	nss := []string{"n.one", "n.two", "n.one.deep"}
 	nsAttr := map[string]string{}
